@@ -99,6 +99,11 @@ func NewFakeIdP() *FakeIdP {
 		}
 		w.Header().Set("Content-Type", "application/json")
 		w.WriteHeader(ans.Status)
+		if ans.Chunked {
+			if fl, ok := w.(http.Flusher); ok {
+				fl.Flush() // headers leave before the length of the body is known
+			}
+		}
 		io.WriteString(w, ans.Body)
 	}))
 	f.Server.StartTLS()
